@@ -319,7 +319,9 @@ func KillStrays(dir string) {
 		if err != nil {
 			continue
 		}
-		if strings.Contains(string(b), dir) {
+		// match the directory itself, not siblings that merely share the prefix (t1 vs t10)
+		cl := string(b)
+		if strings.Contains(cl, dir+"/") || strings.HasSuffix(strings.TrimRight(cl, "\x00"), dir) || strings.Contains(cl, dir+"\x00") {
 			_ = syscall.Kill(pid, syscall.SIGKILL)
 		}
 	}
